@@ -61,6 +61,7 @@ type c10Scenario struct {
 	ParkInfo   string         `json:"park,omitempty"`
 	Notes      []string       `json:"notes,omitempty"`
 	DupPanic   string         `json:"dup_panic,omitempty"`
+	DurMs      int64          `json:"dur_ms"`
 }
 
 // ---- scripted subscriber: one per handler
@@ -560,7 +561,7 @@ func c10Forced() []*c10Scenario {
 		op("close"), op("wait_run")})
 	// subscription ended by the environment; subscriber ignoring its context + Close
 	add("subscription-ends", []c10Op{opAdd(0, false), opAdd(1, true), op("run"), op("wait_running"), opH("subend", 0), opH("wait_stopped", 0), opH("probe", 1), opH("subend", 1), opH("wait_stopped", 1), op("wait_run")})
-	add("close-with-ctx-ignoring-subscriber", []c10Op{opAdd(0, false), op("run"), op("wait_running"), opH("stop", 0), opH("probe", 0), {K: "close", Async: true}, op("wait_run"), opH("wait_stopped", 0)})
+	add("close-with-ctx-ignoring-subscriber", []c10Op{opAdd(0, false), op("run"), op("wait_running"), opH("stop", 0), opH("probe", 0), {K: "close", Async: true}, op("wait_run"), opH("stopped_get", 0)})
 	// foreign context for RunHandlers
 	add("runhandlers-foreign-context", []c10Op{opAdd(0, true), op("run"), op("wait_running"), opAdd(1, true), opRH(1, true, false), opH("started", 1), op("cancel"), opH("wait_stopped", 0), opH("probe", 1),
 		opH("stop", 1), opH("wait_stopped", 1), op("wait_run")})
@@ -675,7 +676,7 @@ func c10Random(rng *rand.Rand, id int) *c10Scenario {
 		case 2:
 			ops = append(ops, opRH(1+rng.Intn(3), false, rng.Intn(3) == 0))
 		case 3, 4:
-			if h := pick(func(h *hinfo) bool { return h.covered && !h.stopped }); h >= 0 && alive() > 1 {
+			if h := pick(func(h *hinfo) bool { return h.covered && !h.stopped && h.hon }); h >= 0 && alive() > 1 {
 				ops = append(ops, opH("started", h), opH("stop", h))
 				hs[h].stopped = true
 				if rng.Intn(2) == 0 {
@@ -788,7 +789,9 @@ func runC10(args []string) error {
 	}
 	for i, sc := range scs {
 		sc.ID = i
+		t0 := time.Now()
 		c10Run(rt, sc, *seed+int64(i))
+		sc.DurMs = time.Since(t0).Milliseconds()
 	}
 	return writeJSON(*out, scs)
 }
